@@ -864,6 +864,13 @@ func (r *run) stepSearch(t *rapid.T) {
 	if rapid.IntRange(0, 4).Draw(t, "bigres") == 3 {
 		nums = append(nums, 4294967295, 4294967294)
 	}
+	if rapid.IntRange(0, 9).Draw(t, "hugeres") == 7 {
+		// thousands of non-adjacent numbers: a SEARCH response of many kB
+		step := uint32(rapid.IntRange(2, 5).Draw(t, "hugestep"))
+		for i, n := uint32(0), uint32(rapid.IntRange(900, 3500).Draw(t, "hugen")); i < n; i++ {
+			nums = append(nums, 50+i*step)
+		}
+	}
 	plan := &imap.SearchData{UID: uid}
 	if uid {
 		var s imap.UIDSet
@@ -1088,6 +1095,15 @@ func (r *run) stepExpunge(t *rapid.T) {
 	for i, n := 0, rapid.IntRange(0, 5).Draw(t, "nexp"); i < n; i++ {
 		plan = append(plan, gen.U32(t, "exp")|1)
 	}
+	late := false
+	if rapid.IntRange(0, 5).Draw(t, "manyexp") == 3 {
+		// more notifications than any buffer between the reader and the
+		// caller holds, and a caller that starts consuming late
+		for i, n := 0, rapid.IntRange(100, 400).Draw(t, "nmany"); i < n; i++ {
+			plan = append(plan, uint32(n-i))
+		}
+		late = rapid.Bool().Draw(t, "lateconsumer")
+	}
 	r.p.Core.OnExpunge = func(w *imapserver.ExpungeWriter, _ *imap.UIDSet) error {
 		for _, n := range plan {
 			if err := w.WriteExpunge(n); err != nil {
@@ -1100,7 +1116,11 @@ func (r *run) stepExpunge(t *rapid.T) {
 	var got []uint32
 	r.wait("Expunge", func() error {
 		var err error
-		got, err = r.p.Client.Expunge().Collect()
+		cmd := r.p.Client.Expunge()
+		if late {
+			time.Sleep(30 * time.Millisecond)
+		}
+		got, err = cmd.Collect()
 		return err
 	})
 	if fmt.Sprint(got) != fmt.Sprint(plan) && !(len(got) == 0 && len(plan) == 0) {
